@@ -369,3 +369,24 @@ Proof.
   rewrite Es in Hl. rewrite (hier_chain_converts uri prefix l0 lv' kt' t root_meta att_meta Hm Hl Hg' Ht Hb Hp Hs Hc).
   rewrite Es. reflexivity.
 Qed.
+
+(* C03 for nests: the text nodes of the converted document, in document order, are the nums, headings and the line as written - nothing
+   lost, nothing invented, nothing reordered *)
+Require Import BB.Proofs.XmlText.
+Lemma nest_texts ids : forall c p t, xtexts (nest ids p c t) = flat_map (fun l : plevel => let '(_, n, h) := l in [n; h]) c ++ [t].
+Proof.
+  induction c as [|[[kw n] h] c' IH]; intros p t; [reflexivity|]. rewrite nest_cons. cbn [xtexts flat_map app]. rewrite IH. rewrite app_nil_r. reflexivity.
+Qed.
+
+Corollary nest_conversion_keeps_text uri prefix l0 (lv : list (nat * plevel)) kt t root_meta att_meta x :
+  assoc_str uri meta_templates = Some (root_meta, att_meta) ->
+  Forall plevel_full (l0 :: map snd lv) ->
+  growing 0 (map (fun kl => (fst kl, header (snd kl))) lv ++ [(kt, t)]) ->
+  plain_text t -> none_starts block_lits t = true -> p_safe t = true -> starts_with SUBH t = false -> no_ctl_start t = true ->
+  convert uri (of_string "hier_element") prefix (stair_text ((0%nat, header l0) :: rows_of lv kt t)) = OkR x ->
+  xtexts x = flat_map (fun l : plevel => let '(_, n, h) := l in [n; h]) (l0 :: map snd lv) ++ [t].
+Proof.
+  intros Hm Hl Hg Ht Hb Hp Hs Hc E.
+  rewrite (hier_chain_converts uri prefix l0 lv kt t root_meta att_meta Hm Hl Hg Ht Hb Hp Hs Hc) in E.
+  assert (Ex : nest true prefix (l0 :: map snd lv) t = x) by congruence. rewrite <- Ex. apply nest_texts.
+Qed.
